@@ -1,7 +1,7 @@
 from common import *
 
 PROPERTY = "C03"
-QUICK_SAMPLE = 4
+QUICK_SAMPLE = 2
 M = "poulpy-hal/src/layouts/module.rs"
 
 
@@ -46,8 +46,8 @@ def ks_instances(tier="thorough"):
         for vin, vout, nsym in [(a, c, ns) for (a, c) in ((0, 2), (3, 0), (1, 1)) for ns in (2, 999)]:
             if nsym == 999 and not (vin == 0 and b == 4 and (kin, kksk, kout, dsize, dnum, ri, ro) == (8, 12, 12, 1, 2, 1, 1)):
                 continue
-            if nsym == 999 and tier != "thorough":
-                continue
+            if tier != "thorough" and (nsym == 999 or ri + ro > 2 or dsize > 1):
+                continue  # quick tier: rank (1,1), dsize 1 (the others need 9-13 min each)
             spi, seci = secret8(ri, vin)
             spo, seco = secret8(ro, vout)
             core = (b, kin, kksk, kout, dsize, dnum, ri, ro, inpl, vin) in ((4, 8, 12, 12, 1, 2, 1, 1, False, 0), (4, 8, 8, 8, 1, 2, 1, 1, True, 0), (12, 24, 36, 36, 1, 2, 1, 1, False, 0)) and nsym == 2
